@@ -170,7 +170,7 @@ def run(ctx):
     nall2 = len(h2)
     if quick:
         h2 = rng.sample(h2, 420)
-    walks = emit(ctx, 6, simulate=14 if quick else 120, seed=ctx.seed + 5, name="walks")
+    walks = emit(ctx, 6, simulate=10 if quick else 120, seed=ctx.seed + 5, name="walks")
     fresh = {}
     r1 = execute(ctx, h1, "k1")
     r2 = execute(ctx, h2, "k2")
